@@ -4,6 +4,7 @@ package netstate
 
 import (
 	"context"
+	"errors"
 	"fmt"
 	"math/rand"
 	"os"
@@ -55,9 +56,23 @@ func runWatch(w *Watcher, script func(notify func(changeSet))) (err error, pan a
 	}()
 	w.watch = func(ctx context.Context, notify func(changeSet)) error {
 		script(notify)
-		return nil
+		return vWatchEndErr
 	}
 	return w.Watch(context.Background()), nil
+}
+
+// vWatchEndErr is what the scripted OS watch loop ends with: watching ends
+// cleanly (nil) or because the OS source failed; subscribers must see their
+// channels closed either way.
+var vWatchEndErr error
+
+var vErrWatch = errors.New("verif: netlink receive failed")
+
+func vSetWatchEnd(id string) {
+	vWatchEndErr = nil
+	if vlib.Hash64("end/"+id)%2 == 0 {
+		vWatchEndErr = vErrWatch
+	}
 }
 
 // TestVerifC19 — link-state subscribers get exactly what they asked for.
@@ -80,6 +95,7 @@ func TestVerifC19(t *testing.T) {
 			continue
 		}
 		r.Begin(id)
+		vSetWatchEnd(id)
 		for _, ch := range vChanges {
 			for _, same := range []bool{true, false} {
 				r.Evals(1)
@@ -130,6 +146,7 @@ func TestVerifC19(t *testing.T) {
 			continue
 		}
 		r.Begin(id)
+		vSetWatchEnd(id)
 		sr := rand.New(rand.NewSource(seed))
 		type sub struct {
 			iface  string
@@ -328,6 +345,7 @@ func c19Linearizability(t *testing.T, r *vlib.Run) {
 			continue
 		}
 		r.Begin(id)
+		vSetWatchEnd(id)
 		sr := rand.New(rand.NewSource(seed))
 		w := NewWatcher()
 		var clock atomic.Int64
@@ -418,6 +436,9 @@ func c19Linearizability(t *testing.T, r *vlib.Run) {
 					})
 				}
 				endCall = clock.Add(1)
+				if seed%2 == 0 {
+					return vErrWatch // the OS source failed: subscribers must still be released
+				}
 				return nil
 			}
 			_ = w.Watch(context.Background())
